@@ -205,6 +205,7 @@ func New(cfg Config, tape *Tape) *Sim {
 		Faults: map[string]int{}, Probes: map[string]int{}, Pairs: map[uint64]struct{}{},
 		siteCount: map[string]int{}, preRng: NewRng(cfg.PreSeed), start: time.Now(), forcePick: -1}
 	s.planPreempt()
+	resetPools()
 	active.Store(s)
 	return s
 }
@@ -713,6 +714,18 @@ func PanicSig(p TaskPanic) string {
 	if i := strings.IndexByte(msg, '\n'); i >= 0 {
 		msg = msg[:i]
 	}
+	if strings.HasPrefix(msg, "panic(") {
+		// scripted handler panics carry the request token: keep the kind only
+		if i := strings.Index(msg, " in "); i > 0 {
+			msg = msg[:i]
+		}
+	}
+	msg = strings.Map(func(r rune) rune {
+		if r < 32 || r > 126 {
+			return '?'
+		}
+		return r
+	}, msg)
 	if strings.HasPrefix(msg, "interface conversion") {
 		msg = "interface conversion"
 	}
@@ -744,4 +757,68 @@ func PanicSig(p TaskPanic) string {
 		}
 	}
 	return msg + " @ " + strings.Join(fr, " < ")
+}
+
+// ---------------------------------------------------------------- deterministic sync.Pool
+
+// Pool replaces sync.Pool in the overlay (the rewriter renames the type): a sync.Pool drops and
+// hands out objects depending on the P a goroutine runs on and on GC cycles, neither of which a
+// replay controls. This one is a plain LIFO stack, maximally eager to reuse (the worst case for
+// state leaking through a pooled object), and every pool is emptied when a simulation starts so
+// that runs in one worker process are independent of each other.
+type Pool struct {
+	New   func() any
+	mu    sync.Mutex
+	items []any
+	reg   bool
+}
+
+var (
+	poolsMu sync.Mutex
+	pools   []*Pool
+)
+
+func (p *Pool) register() {
+	if p.reg {
+		return
+	}
+	p.reg = true
+	poolsMu.Lock()
+	pools = append(pools, p)
+	poolsMu.Unlock()
+}
+
+func (p *Pool) Get() any {
+	p.mu.Lock()
+	p.register()
+	var x any
+	if n := len(p.items); n > 0 {
+		x = p.items[n-1]
+		p.items = p.items[:n-1]
+	}
+	p.mu.Unlock()
+	if x == nil && p.New != nil {
+		x = p.New()
+	}
+	return x
+}
+
+func (p *Pool) Put(x any) {
+	if x == nil {
+		return
+	}
+	p.mu.Lock()
+	p.register()
+	p.items = append(p.items, x)
+	p.mu.Unlock()
+}
+
+func resetPools() {
+	poolsMu.Lock()
+	for _, p := range pools {
+		p.mu.Lock()
+		p.items = nil
+		p.mu.Unlock()
+	}
+	poolsMu.Unlock()
 }
